@@ -57,7 +57,8 @@ fn walk_node_enter(analyzer: &mut DeclAnalyzer, node: LuaAst) {
             stats::analyze_assign_stat(analyzer, stat);
         }
         LuaAst::LuaForStat(stat) => {
-            analyzer.create_scope(stat.get_range(), LuaScopeKind::Normal);
+            // like `for ... in`: the loop variable is not visible in the header expressions
+            analyzer.create_scope(stat.get_range(), LuaScopeKind::ForRange);
             stats::analyze_for_stat(analyzer, stat);
         }
         LuaAst::LuaForRangeStat(stat) => {
